@@ -54,7 +54,22 @@ MEM_POOL = {
     "aarch64": ["add x2, x2, #8", "add x2, x2, #16", "sub x2, x2, #8",
                 "str x1, [x2, #{d}]", "str x1, [x2], #8", "str d0, [x2, #{d}]", "str x1, [x2, #8]!",
                 "ldr x3, [x2, #{d}]", "ldr x3, [x2, #8]!", "ldr d1, [x2, #{d}]", "ldr x3, [x2], #8",
+                "ldr d1, [x2], #8", "ldr d1, [x2, #8]!", "ldr d4, [x6]", "ldr d5, [x7], #8", "fadd d0, d0, d4",
                 "add x1, x1, x3", "fadd d0, d0, d1", "cmp x2, x5", "b.ne .L3"],
+}
+
+
+# recurrences through memory that are always run (every rotation, every model of the shard)
+MEM_TEMPLATES = {
+    "aarch64": [
+        ["ldr d1, [x1], #8", "ldr d0, [x0]", "fmadd d0, d1, d2, d0", "str d0, [x0]", "subs x3, x3, #1"],
+        ["ldr d0, [x0]", "ldr d1, [x1, #8]!", "fadd d0, d0, d1", "str d0, [x0]", "add x0, x0, #0"],
+        ["str x1, [x2], #8", "ldr x3, [x2, #-8]", "add x1, x1, x3", "ldr x4, [x5]", "add x1, x1, x4"],
+    ],
+    "x86": [
+        ["addq $8, %rbx", "addq %rcx, (%rbx)", "movq (%rbx), %rdx", "addq %rdx, %rcx", "cmpq %rsi, %rbx"],
+        ["vmovsd (%rax), %xmm0", "vaddsd 8(%rbx), %xmm0, %xmm0", "vmovsd %xmm0, (%rax)", "addq $8, %rbx"],
+    ],
 }
 
 
@@ -106,10 +121,14 @@ def check_case(case):
 _M = {}
 
 
-def _build_real(arch, lines):
+def _build_real(arch, lines, fresh=False):
     from osaca.semantics import ArchSemantics, KernelDG, MachineModel
     from osaca.parser import ParserAArch64, ParserX86ATT
 
+    if fresh:
+        # a model object of its own for this analysis, as a CLI run has (state kept on the model object must not
+        # make one rotation depend on another)
+        _M.pop(arch, None)
     if arch not in _M:
         _M.clear()
         mm = guard(MachineModel, arch=arch, what="MachineModel")
@@ -124,11 +143,12 @@ def _build_real(arch, lines):
 def check_corpus(case):
     lines, arch = case["lines"], case["arch"]
     n = len(lines)
-    base = lcd_map(_build_real(arch, lines), 0, n, 0)
+    fresh = case["name"] == "memloop"
+    base = lcd_map(_build_real(arch, lines, fresh), 0, n, 0)
     straddle = False
     sub = []
     for rot in case["offsets"]:
-        other = lcd_map(_build_real(arch, lines[rot:] + lines[:rot]), 0, n, rot)
+        other = lcd_map(_build_real(arch, lines[rot:] + lines[:rot], fresh), 0, n, rot)
         compare(base, other, rot, "corpus")
         st_ = any(min(ms) < rot <= max(ms) for ms in base)
         straddle = straddle or st_
@@ -188,6 +208,18 @@ def run_shard(spec):
     if spec["kind"] == "memloop":
         failures = hyp_search(ID, memloops(spec["isa"], spec["archs"]), check_case, stats, seed=spec["seed"],
                               max_examples=spec["n"])
+        seen = {f["bucket"] for f in failures}
+        for arch in spec["archs"]:
+            for lines in MEM_TEMPLATES[spec["isa"]]:
+                case = {"kind": "corpus", "arch": arch, "name": "memloop", "lines": lines,
+                        "offsets": list(range(1, len(lines)))}
+                try:
+                    stats.record(case, check_case(case))
+                except Violation as v:
+                    stats.evaluations += 1
+                    if v.bucket not in seen:
+                        seen.add(v.bucket)
+                        failures.append(failure_record(ID, case, v))
         return {"stats": stats.to_dict(), "failures": failures}
     strat = deps.dep_cases(isa=spec["isa"], max_len=spec["max_len"], min_len=2, big_lines=False)
     failures = hyp_search(ID, strat, check_case, stats, seed=spec["seed"], max_examples=spec["n"])
